@@ -124,9 +124,18 @@ def build_harness(name, harness_src, lib_srcs, extra=(), sanitize='address,undef
         cmd += ['-fsanitize=' + sanitize, '-fno-sanitize-recover=all']
     cmd += ['-D' + d for d in defines]
     cmd += ['-I' + os.path.join(REPO, d) for d in INC_DIRS] + ['-I' + os.path.join(VERIF, 'harness')]
-    cmd += ['-o', exe, os.path.join(VERIF, 'harness', harness_src)]
+    tmp = '%s.%d.tmp' % (exe, os.getpid())
+    cmd += ['-o', tmp, os.path.join(VERIF, 'harness', harness_src)]
     cmd += [os.path.join(REPO, s) for s in lib_srcs] + list(extra)
     rc, out, err = sh(cmd, timeout=600)
+    if rc == 0:
+        # checks may run side by side: each one gets its own copy of the binary, built from the tree as it is now
+        exe = '%s.%d' % (exe, os.getpid())
+        os.replace(tmp, exe)
+        import atexit
+        atexit.register(lambda p=exe: os.path.exists(p) and os.remove(p))
+    elif os.path.exists(tmp):
+        os.remove(tmp)
     return (exe if rc == 0 else None), out + err
 
 
